@@ -216,6 +216,99 @@ pub fn run_case(ctx: &Ctx, c: &Case) -> (Vec<Viol>, String) {
     (out, outcome)
 }
 
+/// A peer that comes back with other cipher settings while the first connection's handshake object still lingers at the
+/// initiator: A (list `a`) dials B (list `b1`); then a fresh B' (list `b2`, same key) dials A. If A accepts the new
+/// handshake at all, what A seals afterwards must follow the NEW negotiation: cleartext only if A and B' both enable plain,
+/// and B' must open it. (On the unchanged code A's lingering object just repeats its old peng and never completes twice;
+/// the oracle then has nothing to judge - it bites on changes that let one object run a second handshake.)
+pub fn restart_case(ctx: &Ctx, a: &Adv, b1: &Adv, b2: &Adv) -> Vec<Viol> {
+    use vpncloud::crypto::{MessageResult, PeerCrypto};
+    ctx.eval();
+    let cj = || json!({"kind": "restart", "a": a, "b1": b1, "b2": b2});
+    let mut out = vec![];
+    let key = keypair_from_seed(3);
+    let t = vec![pubkey(&key)];
+    let ea = EndSpec { key: key.clone(), trusted: t.clone(), algos: to_algos(a), id: 1 };
+    let eb = EndSpec { key: key.clone(), trusted: t.clone(), algos: to_algos(b1), id: 2 };
+    let r = catch(|| {
+        let mut sim = PairSim::new(&ea, &eb, None);
+        sim.init(0);
+        sim.settle();
+        if sim.completed != [1, 1] {
+            return None; // first handshake did not complete (nothing in common): not this family's subject
+        }
+        let before = sim.ends[0].algorithm_name();
+        let mut bp: PeerCrypto<vpncloud::messages::NodeInfo> = PeerCrypto::new(crate::sim::node_id(3), crate::sim::rich_node_info(3), key.clone(), t.clone().into_boxed_slice().into(), to_algos(b2));
+        let mut buf = crate::sim::new_buf();
+        if bp.initialize(&mut buf).is_err() {
+            return None;
+        }
+        let mut to_a: Option<Vec<u8>> = Some(buf.message().to_vec());
+        let mut bp_done = false;
+        for _ in 0..12 {
+            let m = match to_a.take() {
+                Some(m) => m,
+                None => break,
+            };
+            sim.inflight.clear();
+            let _ = sim.feed(0, &m);
+            let reply = sim.inflight.pop().map(|(_, d)| d);
+            if let Some(rp) = reply {
+                if rp.is_empty() {
+                    break;
+                }
+                let mut b = crate::sim::new_buf();
+                b.set_length(rp.len());
+                b.message_mut().copy_from_slice(&rp);
+                match bp.handle_message(&mut b) {
+                    Ok(MessageResult::Reply) => to_a = Some(b.message().to_vec()),
+                    Ok(MessageResult::InitializedWithReply(_)) => {
+                        bp_done = true;
+                        to_a = Some(b.message().to_vec());
+                    }
+                    Ok(MessageResult::Initialized(_)) => bp_done = true,
+                    _ => {}
+                }
+            }
+        }
+        Some((sim.completed[0], before, sim.ends[0].algorithm_name(), bp_done, sim.seal_probe(0), bp))
+    });
+    match r {
+        Err(p) => out.push(Viol::new(format!("negotiation-{}", p.sig()), format!("panic during a second handshake: {} at {}", p.msg, p.loc), cj())),
+        Ok(None) => {}
+        Ok(Some((a_completed, before, after, bp_done, probe, mut bp))) => {
+            if a_completed >= 2 || bp_done {
+                ctx.class("restart:second-handshake-accepted");
+                let both_plain = a.plain && b2.plain;
+                match probe {
+                    Err(e) => out.push(Viol::new("restart-probe-seal-failed", e, cj())),
+                    Ok((wire, payload)) => {
+                        let clear = wire.windows(payload.len()).any(|w| w == &payload[..]);
+                        if clear && !both_plain {
+                            out.push(Viol::new(
+                                "plain-after-renegotiation-without-both-enabling-it",
+                                format!("after a second handshake (cipher reported {} -> {}) the initiator seals nothing: payload in clear although the new peer does not enable plain", before, after),
+                                cj(),
+                            ));
+                        }
+                        let mut b = crate::sim::new_buf();
+                        b.set_length(wire.len());
+                        b.message_mut().copy_from_slice(&wire);
+                        let opened = matches!(bp.handle_message(&mut b), Ok(MessageResult::Message(0))) && b.message() == &payload[..];
+                        if bp_done && !opened && !clear {
+                            out.push(Viol::new("ends-disagree-after-renegotiation", format!("the new peer completed its handshake but cannot open what the initiator seals (cipher {} -> {})", before, after), cj()));
+                        }
+                    }
+                }
+                ctx.nontrivial(&format!("restart {:?} {:?} {:?}", a, b1, b2));
+            } else {
+                ctx.class("restart:lingering-object-does-not-renegotiate");
+            }
+        }
+    }
+    out
+}
+
 fn permutations(v: &[u8]) -> Vec<Vec<u8>> {
     if v.len() <= 1 {
         return vec![v.to_vec()];
@@ -398,6 +491,29 @@ pub fn run(ctx: &Ctx) {
         ctx.subspace("lists that also hold unknown cipher ids (newer peer), re-signed with the trusted key: 16 x 16 subset pairs x 4 placements x {ping, pong, both}", nc, !ctx.quick());
     }
 
+    // a peer that comes back with another list while the initiator's handshake object lingers
+    {
+        let lists: Vec<Adv> = vec![
+            Adv { plain: true, list: vec![] },
+            Adv { plain: true, list: vec![(2, 500.0), (1, 600.0)] },
+            Adv { plain: false, list: vec![(2, 500.0)] },
+            Adv { plain: false, list: vec![(1, 600.0), (2, 500.0), (3, 400.0)] },
+            Adv { plain: false, list: vec![(3, 400.0)] },
+        ];
+        let mut n = 0u64;
+        for a in &lists {
+            for b1 in &lists {
+                for b2 in &lists {
+                    let v = restart_case(ctx, a, b1, b2);
+                    ctx.report(v);
+                    n += 1;
+                }
+            }
+        }
+        ctx.flush_local();
+        ctx.subspace("peer returns with another cipher list while the initiator's handshake object lingers (5 x 5 x 5 lists): whatever is accepted must follow the new negotiation", n, true);
+    }
+
     // configuration names
     let names: [(&str, Option<u8>); 14] = [
         ("UNENCRYPTED", None), ("NONE", None), ("PLAIN", None),
@@ -432,6 +548,15 @@ pub fn run(ctx: &Ctx) {
 }
 
 pub fn replay(ctx: &Ctx, case: &Value) {
+    if case["kind"].as_str() == Some("restart") {
+        if let (Ok(a), Ok(b1), Ok(b2)) = (serde_json::from_value::<Adv>(case["a"].clone()), serde_json::from_value::<Adv>(case["b1"].clone()), serde_json::from_value::<Adv>(case["b2"].clone())) {
+            for _ in 0..4 {
+                let v = restart_case(ctx, &a, &b1, &b2);
+                ctx.report(v);
+            }
+        }
+        return;
+    }
     match case["kind"].as_str() {
         Some("negotiation") => {
             if let Ok(c) = serde_json::from_value::<Case>(case["case"].clone()) {
